@@ -43,5 +43,5 @@ Definition sent_keep_alive (s : st) : bool :=
 
 (* the follow-up request used by the correspondence: GET HTTP/1.1 with Connection: close, answered
    by a handler that writes one byte *)
-Definition req2 (q : req) : req := mkReq GET V11 (Some (b "close")) None NoBody (q_nka q) false.
+Definition req2 (q : req) : req := mkReq GET V11 (Some (b "close")) None NoBody (q_nka q) false WSync.
 Definition prog2 : list op := [Write (b "2")].
